@@ -110,10 +110,13 @@ impl Iterator for QueryIterator {
                     author_filter,
                     selector,
                 } => loop {
-                    // get the next entry from the query range, filtered by the author filter
+                    // get the next entry from the query range, filtered by the author filter.
+                    // for latest-per-key queries the author filter applies to the selected
+                    // entry (after the grouping), so the range is not filtered here.
+                    let grouped = selector.is_some();
                     let next = range
                         .next_filtered(&self.query.sort_direction, |(_ns, _key, author)| {
-                            author_filter.matches(&(AuthorId::from(author)))
+                            grouped || author_filter.matches(&(AuthorId::from(author)))
                         });
 
                     // early-break if next contains Err
@@ -132,6 +135,11 @@ impl Iterator for QueryIterator {
                             SelectorRes::Some(res) => Some(res),
                         },
                     };
+
+                    // latest-per-key: the author filter is applied after the grouping
+                    if grouped && matches!(&next, Some(e) if !author_filter.matches(&e.author())) {
+                        continue;
+                    }
 
                     // skip the entry if empty and no empty entries requested
                     if !self.query.include_empty && matches!(&next, Some(e) if e.is_empty()) {
